@@ -7,10 +7,12 @@ package twin
 
 import (
 	"math/big"
+	"sort"
 
 	sdkmath "cosmossdk.io/math"
 	sdk "github.com/cosmos/cosmos-sdk/types"
 	banktypes "github.com/cosmos/cosmos-sdk/x/bank/types"
+	stakingkeeper "github.com/cosmos/cosmos-sdk/x/staking/keeper"
 	stakingtypes "github.com/cosmos/cosmos-sdk/x/staking/types"
 	"github.com/ethereum/go-ethereum/common"
 	"github.com/ethereum/go-ethereum/core"
@@ -277,6 +279,7 @@ type stakePre struct {
 	caller common.Address
 	amount *big.Int
 	class  string
+	tie    bool // the caller's two least-staked validators hold equal tokens: the operator string decides
 }
 
 func (w *world) genStake(r *Rng) *genTx {
@@ -285,8 +288,8 @@ func (w *world) genStake(r *Rng) *genTx {
 	// senders 1 (three delegations), 2 (one), others (none, unless earlier blocks delegated)
 	var sender *itutiltypes.TestAccount
 	var order []int
-	switch r.Intn(3) {
-	case 0:
+	switch r.Intn(4) {
+	case 0, 3:
 		order = []int{1, 2, 3 + r.Intn(len(w.senders)-3)}
 	case 1:
 		order = []int{2, 3 + r.Intn(len(w.senders)-3), 1}
@@ -311,6 +314,10 @@ func (w *world) genStake(r *Rng) *genTx {
 		amount = new(big.Int).Add(amount, r.BigBits(50))
 	}
 	sp := &stakePre{caller: from, amount: amount}
+	if w.equaliseLowest(r, from) {
+		sp.tie = true
+		q = c.QueryCtx()
+	}
 	all, err := c.App.StakingKeeper.GetAllValidators(q) // store order
 	require.NoError(w.t, err)
 	for _, v := range all {
@@ -356,4 +363,45 @@ func (w *world) genDestroy(r *Rng, straddleEnd int64) *genTx {
 	require.NoError(w.t, err)
 	g.raw = bz
 	return g
+}
+
+// equaliseLowest: when the caller delegates to several bonded validators, now and then a third party delegates
+// (keeper-level, on every replica, between blocks) exactly the difference between the two least-staked of them,
+// so that transfer()'s comparison has to fall back on the operator string.
+func (w *world) equaliseLowest(r *Rng, caller common.Address) bool {
+	c := w.lead
+	q := c.QueryCtx()
+	dels, err := c.App.StakingKeeper.GetAllDelegatorDelegations(q, caller.Bytes())
+	require.NoError(w.t, err)
+	if len(dels) < 2 || !r.Chance(80) {
+		return false
+	}
+	type vt struct {
+		op     string
+		tokens *big.Int
+	}
+	var mine []vt
+	for _, d := range dels {
+		bz, err := c.App.StakingKeeper.ValidatorAddressCodec().StringToBytes(d.ValidatorAddress)
+		require.NoError(w.t, err)
+		v, err := c.App.StakingKeeper.GetValidator(q, bz)
+		require.NoError(w.t, err)
+		if v.IsBonded() {
+			mine = append(mine, vt{d.ValidatorAddress, v.Tokens.BigInt()})
+		}
+	}
+	if len(mine) < 2 {
+		return false
+	}
+	sort.Slice(mine, func(i, j int) bool { return mine[i].tokens.Cmp(mine[j].tokens) < 0 })
+	diff := new(big.Int).Sub(mine[1].tokens, mine[0].tokens)
+	if diff.Sign() > 0 {
+		helper := w.senders[0]
+		w.each(func(rc *Chain) {
+			ms := stakingkeeper.NewMsgServerImpl(rc.App.StakingKeeper)
+			_, err := ms.Delegate(rc.Ctx(), stakingtypes.NewMsgDelegate(helper.GetCosmosAddress().String(), mine[0].op, sdk.NewCoin(w.bond, sdkmath.NewIntFromBigInt(diff))))
+			require.NoError(w.t, err)
+		})
+	}
+	return true
 }
